@@ -528,7 +528,11 @@ theorem Extends.trans {a b c : St} (h1 : Extends a b) (h2 : Extends b c) : Exten
   · exact n1 ev h
   · exact n2 ev h
 
-theorem mid_stepAtom (env : Env) (x : Atom) (st : St) (hx : x.midOk = true) (hq : Quiet st) :
+/-- the arguments in `refuted` are not truthy -/
+def Refuted (env : Env) (refuted : List Nat) : Prop := ∀ i ∈ refuted, truthy (env.args.getD i .none) = false
+
+theorem mid_stepAtom (env : Env) (refuted : List Nat) (hr : Refuted env refuted) (x : Atom) (st : St)
+    (hx : x.midOk refuted = true) (hq : Quiet st) :
     (stepAtom env st x).status = st.status ∧ Quiet (stepAtom env st x) ∧ Extends st (stepAtom env st x) := by
   induction x generalizing st with
   | post name k sj old new obs =>
@@ -545,7 +549,14 @@ theorem mid_stepAtom (env : Env) (x : Atom) (st : St) (hx : x.midOk = true) (hq 
     · exact ⟨rfl, hq, Extends.refl st⟩
   | nested x ih => exact ih st (by simpa [Atom.midOk] using hx) hq
   | guard c => simp [Atom.midOk] at hx
-  | reject c => simp [Atom.midOk] at hx
+  | reject c =>
+    cases c with
+    | arg i =>
+      have hi : i ∈ refuted := by simpa [Atom.midOk] using hx
+      have := hr i hi
+      simp only [stepAtom, eval, this]
+      exact ⟨rfl, hq, Extends.refl _⟩
+    | _ => simp [Atom.midOk] at hx
   | hold => simp [Atom.midOk] at hx
   | release => simp [Atom.midOk] at hx
   | capture v e => exact ⟨rfl, hq, Extends.refl _⟩
@@ -555,19 +566,48 @@ theorem mid_stepAtom (env : Env) (x : Atom) (st : St) (hx : x.midOk = true) (hq 
   | dirty => exact ⟨rfl, hq, Extends.refl _⟩
   | touch => exact ⟨rfl, hq, Extends.refl _⟩
 
-theorem mid_runAtoms (env : Env) (as : List Atom) (st : St) (h : ∀ x ∈ as, x.midOk = true) (hq : Quiet st) :
+/-- a method that is still running after a prefix has refuted every argument the prefix rejects on -/
+theorem refuted_of_running (env : Env) (as : List Atom) (st : St) (hs : st.status = .running)
+    (hrun : (runAtoms env st as).status = .running) : Refuted env (refutedArgs as) := by
+  induction as generalizing st with
+  | nil => intro i hi; simp [refutedArgs] at hi
+  | cons x xs ih =>
+    rw [runAtoms_cons] at hrun
+    have hx : (stepA env st x).status = .running := by
+      by_cases h : (stepA env st x).status = .running
+      · exact h
+      · rw [runAtoms_halted env _ xs h] at hrun; exact absurd hrun h
+    have hrest := ih (stepA env st x) hx hrun
+    intro i hi
+    cases x with
+    | reject c =>
+      cases c with
+      | arg j =>
+        simp only [refutedArgs, List.mem_cons] at hi
+        rcases hi with rfl | hi
+        · have hev : eval env st.vars st.store .none (.arg i) = env.args.getD i .none := rfl
+          by_cases ht : truthy (eval env st.vars st.store .none (.arg i)) = true
+          · simp only [stepA, hs, if_true, stepAtom, ht] at hx
+            cases hx
+          · rw [hev] at ht; simpa using ht
+        · exact hrest i hi
+      | _ => exact hrest i (by simpa [refutedArgs] using hi)
+    | _ => exact hrest i (by simpa [refutedArgs] using hi)
+
+theorem mid_runAtoms (env : Env) (refuted : List Nat) (hr : Refuted env refuted) (as : List Atom) (st : St)
+    (h : ∀ x ∈ as, x.midOk refuted = true) (hq : Quiet st) :
     (runAtoms env st as).status = st.status ∧ Quiet (runAtoms env st as) ∧ Extends st (runAtoms env st as) := by
   induction as generalizing st with
   | nil => exact ⟨rfl, hq, Extends.refl st⟩
   | cons x xs ih =>
     rw [runAtoms_cons]
-    by_cases hr : st.status = .running
-    · have hs : stepA env st x = stepAtom env st x := by simp [stepA, hr]
+    by_cases hrn : st.status = .running
+    · have hs : stepA env st x = stepAtom env st x := by simp [stepA, hrn]
       rw [hs]
-      obtain ⟨s1, q1, e1⟩ := mid_stepAtom env x st (h x (by simp)) hq
+      obtain ⟨s1, q1, e1⟩ := mid_stepAtom env refuted hr x st (h x (by simp)) hq
       obtain ⟨s2, q2, e2⟩ := ih (stepAtom env st x) (fun y hy => h y (by simp [hy])) q1
       exact ⟨s2.trans s1, q2, e1.trans e2⟩
-    · rw [stepA_halted env st x hr, runAtoms_halted env st xs hr]
+    · rw [stepA_halted env st x hrn, runAtoms_halted env st xs hrn]
       exact ⟨rfl, hq, Extends.refl st⟩
 
 theorem suf_stepAtom (env : Env) (x : Atom) (st : St) (hx : x.sufOk = true) (hq : Quiet st) :
@@ -647,12 +687,14 @@ theorem willDidRun_of_straight (env : Env) (σ : Store) (as : List Atom) (h : st
         intro x hx
         exact List.all_eq_true.mp (@List.all_takeWhile _ Atom.preOk as) x hx
       clear hdrop hdrop2
-      generalize as.takeWhile Atom.preOk = pre at has hpre
+      generalize as.takeWhile Atom.preOk = pre at has hpre hmid
       generalize rest.takeWhile (fun a => !a.isDidPost) = mid at has hmid
       subst has
       rw [runAtoms_append, runAtoms_cons, runAtoms_append, runAtoms_cons]
       obtain ⟨s1, e1, d1, q1⟩ := pre_runAtoms env pre (init σ) hpre
-      generalize runAtoms env (init σ) pre = st1 at s1 e1 d1 q1
+      have hrefuted : (runAtoms env (init σ) pre).status = .running → Refuted env (refutedArgs pre) :=
+        refuted_of_running env pre (init σ) rfl
+      generalize runAtoms env (init σ) pre = st1 at s1 e1 d1 q1 hrefuted
       have hq1 : Quiet st1 := ⟨d1, q1⟩
       by_cases hr : st1.status = .running
       · -- the will is delivered at once, in the store of before the operation
@@ -665,7 +707,7 @@ theorem willDidRun_of_straight (env : Env) (σ : Store) (as : List Atom) (h : st
               oW.map (eval env st1.vars st1.store .none), nW.map (eval env st1.vars st1.store .none), obsW⟩ : Note)
             = noteW
         have hq2 : Quiet (deliver st1 noteW) := hq1
-        obtain ⟨s3, q3, x3⟩ := mid_runAtoms env mid (deliver st1 noteW) hmid hq2
+        obtain ⟨s3, q3, x3⟩ := mid_runAtoms env (refutedArgs pre) (hrefuted hr) mid (deliver st1 noteW) hmid hq2
         generalize runAtoms env (deliver st1 noteW) mid = st3 at s3 q3 x3
         have hr3 : st3.status = .running := by rw [s3]; exact hr
         have hD : stepA env st3 (.post d .did sjD oD nD obsD) =
